@@ -448,7 +448,7 @@ pub fn build(name: &str, rng: &mut Rng) -> Built {
 }
 
 /// DSP blocks with a Lean model (C11)
-pub const DSP_NAMES: &[&str] = &["fir", "fir_c", "hilbert", "iir1", "fastfm", "fftx", "sigsrc_f", "sigsrc_c", "quaddemod", "fftfx"];
+pub const DSP_NAMES: &[&str] = &["fir", "fir_c", "hilbert", "iir1", "fastfm", "fftx", "sigsrc_f", "sigsrc_c", "quaddemod", "fftfx", "cma"];
 
 pub const HAND_NAMES: &[&str] = &[
     "skip", "delay", "resampler", "rtlsdr", "fir", "fir_c", "fftfilter", "fftfilter_f", "hilbert", "fftstream",
@@ -731,8 +731,14 @@ pub fn build_hand(name: &str, rng: &mut Rng) -> Built {
             Rig { block: Box::new(b), ins: fs, outs: vec![drainer(o)] }
         }
         "cma" => {
-            alphabets = vec![complex_alpha(rng)];
-            rig1::<Complex, Complex>(rng, |r| bx!(CmaEqualizer::new(4, 1.0, 0.001, r)))
+            // mostly small Gaussian integers; one case in four has arbitrary parts (infinities, NaN, signed zeros):
+            // then the update term 0·∞ turns the taps into NaN for good
+            let ntaps = rng.range(1, 7);
+            let modulus = *rng.pick(&[1.0f32, 0.5, 2.0, 25.0]);
+            let step = *rng.pick(&[0.001f32, 0.5, -1.0]);
+            params = vec![ntaps as u64, modulus.to_bits() as u64, step.to_bits() as u64];
+            alphabets = vec![if rng.below(4) == 0 { complex_any_alpha(rng) } else { complex_alpha(rng) }];
+            rig1::<Complex, Complex>(rng, |r| bx!(CmaEqualizer::new(ntaps, modulus, step, r)))
         }
         "midpointer" => {
             alphabets = vec![wave_alpha()];
@@ -1677,7 +1683,7 @@ pub fn run(args: &[String]) -> Vec<String> {
     let only_block = arg(args, "--block");
     let mut out = Vec::new();
     let names: Vec<&str> = match set.as_str() {
-        "modelled" => SYNC_NAMES.iter().chain(ARITY_NAMES.iter()).chain(["skip", "delay", "resampler", "rtlsdr", "s2pdu", "totext", "audec", "zerocross", "zerocross_clk", "symsync", "symsync_clk", "v2s", "constsrc", "delayctl", "auenc", "fftstream_x", "nullsink", "vectorsink", "sigsrc_f", "sigsrc_c", "quaddemod", "fftfx"].iter()).copied().collect(),
+        "modelled" => SYNC_NAMES.iter().chain(ARITY_NAMES.iter()).chain(["skip", "delay", "resampler", "rtlsdr", "s2pdu", "totext", "audec", "zerocross", "zerocross_clk", "symsync", "symsync_clk", "v2s", "constsrc", "delayctl", "auenc", "fftstream_x", "nullsink", "vectorsink", "sigsrc_f", "sigsrc_c", "quaddemod", "fftfx", "cma"].iter()).copied().collect(),
         "sync" => SYNC_NAMES.to_vec(),
         "arity" => ARITY_NAMES.to_vec(),
         "hand" => HAND_NAMES.to_vec(),
